@@ -145,6 +145,18 @@ func (d *dlgWorld) backendReceives(addr string, s *simnet.UDPSock, from *net.UDP
 			w.stat("backend-cannot-answer")
 			continue
 		}
+		if vias, err := m.Vias(); err == nil && len(vias) > 0 && strings.EqualFold(vias[0].Transport, "TCP") {
+			// the topmost Via asks for TCP: the backend connects to it
+			d.w.K.After(rp.delay, "backend-tcp-answer", func() {
+				c, err := d.w.TCPConnTo("be-"+addr, udpAddr(addr).IP.String(), 0, dst.String())
+				if err != nil {
+					d.w.stat("backend-cannot-connect")
+					return
+				}
+				c.Write(resp)
+			})
+			continue
+		}
 		d.send(s, dst, resp, rp.delay)
 	}
 }
